@@ -11,6 +11,7 @@ CONSTANTS
   MFS0 = 16384
   MAXS = @MAXS@
   SidsUsed = @SIDS@
+  ESs = {TRUE, FALSE}
   CKinds = @KINDS@
   Reqs = @REQS@
   Trailers = {"trailers", "trailerspseudo"}
